@@ -12,21 +12,23 @@ import (
 
 const c08SchemaByName = `
 interface I { x: Int }
-type A implements I { x: Int a: Int }
-type B implements I { x: Int b: Int }
+interface J { x: Int }
+type A implements J & I { x: Int a: Int }
+type B implements I & J { x: Int b: Int }
 type C { x: Int c: Int }
 union U = A | B
-type Query { is: [I] us: [U] i: I u: U a: A b: B }
+type Query { is: [I] us: [U] i: I u: U a: A b: B js: [J] }
 `
 
 // the same schema with the Go types bound by @go (their Go names differ)
 const c08SchemaByGo = `
 interface I { x: Int }
-type A implements I @go(type: "GoA") { x: Int a: Int }
-type B implements I @go(type: "GoB") { x: Int b: Int }
+interface J { x: Int }
+type A implements J & I @go(type: "GoA") { x: Int a: Int }
+type B implements I & J @go(type: "GoB") { x: Int b: Int }
 type C { x: Int c: Int }
 union U = A | B
-type Query { is: [I] us: [U] i: I u: U a: A b: B }
+type Query { is: [I] us: [U] i: I u: U a: A b: B js: [J] }
 `
 
 type A struct {
@@ -73,6 +75,7 @@ func (n *ResB) Resolve(field *ggql.Field, args map[string]interface{}) (interfac
 
 type c08Query struct {
 	Is []interface{}
+	Js []interface{}
 	Us []interface{}
 	I  interface{}
 	U  interface{}
@@ -127,7 +130,7 @@ func c08Elems(name string, n int) []c08Elem {
 // applies: the harness's own hierarchy
 func c08Applies(isA bool, cond string) bool {
 	switch cond {
-	case "", "I", "U":
+	case "", "I", "J", "U":
 		return true
 	case "A":
 		return isA
@@ -174,9 +177,9 @@ func C08_abstract() {
 		name     string
 		list     bool
 		abstract string // "I", "U" or "" (object-typed)
-	}{{"is", true, "I"}, {"us", true, "U"}, {"i", false, "I"}, {"u", false, "U"}, {"a", false, ""}, {"b", false, ""}}
+	}{{"is", true, "I"}, {"us", true, "U"}, {"i", false, "I"}, {"u", false, "U"}, {"a", false, ""}, {"b", false, ""}, {"js", true, "J"}}
 	f := fields[sym.Choice("field", len(fields))]
-	conds := []struct{ cond, sub string }{{"", "t:__typename"}, {"A", "a"}, {"B", "b"}, {"I", "x"}, {"U", "t:__typename"}, {"C", "c"}}
+	conds := []struct{ cond, sub string }{{"", "t:__typename"}, {"A", "a"}, {"B", "b"}, {"I", "x"}, {"U", "t:__typename"}, {"C", "c"}, {"J", "x"}}
 	c := conds[sym.Choice("condition", len(conds))]
 	named := sym.Choice("named fragment", 2) == 1
 	warm := sym.Choice("warm", 2) == 1
@@ -204,6 +207,8 @@ func C08_abstract() {
 	switch f.name {
 	case "is":
 		q.Is = vals
+	case "js":
+		q.Js = vals
 	case "us":
 		q.Us = vals
 	case "i":
@@ -254,7 +259,7 @@ func C08_abstract() {
 		if cond == "" {
 			// a named fragment needs a condition: use the container's own type
 			switch f.abstract {
-			case "I", "U":
+			case "I", "J", "U":
 				cond = f.abstract
 			default:
 				cond = map[string]string{"a": "A", "b": "B"}[f.name]
